@@ -11,6 +11,32 @@ pub fn run(ctx: &mut Ctx) {
     for case in ctx.cases("orders", 800, true) {
         ctx.run_case("orders", case, orders_case);
     }
+    // the formula without clauses: every heuristic returns the empty order.  FORCE runs in a
+    // helper thread: if it does not come back the case is inconclusive (S14), never a violation
+    for case in ctx.cases("empty_cnf", 1, false) {
+        ctx.run_case("empty_cnf", case, |ctx, _rng| {
+            let cnf = clauses_to_cnf(&Vec::new());
+            let info = json!({"clauses": []});
+            check_order(ctx, &cnf.linear_order(), 0, "linear", &info);
+            check_order(ctx, &cnf.min_fill_order(), 0, "min_fill", &info);
+            let (tx, rx) = std::sync::mpsc::channel();
+            std::thread::spawn(move || {
+                let c = rsdd::repr::Cnf::new(&[]);
+                let o = c.force_order();
+                let _ = tx.send(o.num_vars());
+            });
+            match rx.recv_timeout(std::time::Duration::from_secs(30)) {
+                Ok(k) => {
+                    ctx.count("force_on_the_clause_free_formula", 1);
+                    if k != 0 {
+                        ctx.violation("order.force", "FORCE order of the formula without clauses is not the empty order", json!({"num_vars": k}));
+                    }
+                }
+                Err(_) => ctx.inconclusive("force_order on the formula without clauses did not return within 30 s (helper thread left running)"),
+            }
+            ctx.case_eval(None);
+        });
+    }
     for case in ctx.cases("dtree_small", 300, true) {
         // every elimination order for CNFs over <= 4 variables
         ctx.run_case("dtree_small", case, |ctx, rng| {
@@ -266,7 +292,14 @@ fn check_order(ctx: &mut Ctx, o: &VarOrder, n: usize, what: &str, info: &Value) 
 }
 
 fn orders_case(ctx: &mut Ctx, rng: &mut Rng) {
-    let cl = gen(rng, 12);
+    let mut cl = gen(rng, 12);
+    // a CNF may contain an empty clause (Cnf::condition produces them): every order heuristic
+    // must still return a permutation of the variables
+    if rng.chance(1, 6) {
+        let at = rng.below(cl.len() + 1);
+        cl.insert(at, Vec::new());
+        ctx.count("order_inputs_with_an_empty_clause", 1);
+    }
     let n = clauses_num_vars(&cl);
     let cnf = clauses_to_cnf(&cl);
     let info = json!({"clauses": clauses_json(&cl)});
